@@ -963,7 +963,16 @@ func matchFieldNilAny(p *Prog, field string) condMatch {
 		}
 		fr, _, ok := fieldOfLoad(p.canon(x))
 		if !ok || fr.Field != field {
-			return false, false
+			// an element of a slice literal that holds the field's value
+			hit := false
+			for _, e := range p.elemCandidates(p.canon(x)) {
+				if f2, _, ok2 := fieldOfLoad(p.canon(e)); ok2 && f2.Field == field {
+					hit = true
+				}
+			}
+			if !hit {
+				return false, false
+			}
 		}
 		return true, b.Op == token.EQL
 	}
